@@ -352,14 +352,20 @@ impl Key {
         expected: &hmac::Tag,
         provided: &[u8],
     ) -> Result<(), ValidationError> {
+        // RFC 8945, section 5.2.2.1: a MAC that is longer than the output
+        // of the hash function or shorter than the larger of 10 octets and
+        // half that output is a format error. Only a MAC of a permitted
+        // length that is too short for the local policy is BADTRUNC.
+        let native_len = expected.as_ref().len();
+        if provided.len() > native_len
+            || provided.len() < cmp::max(10, native_len / 2)
+        {
+            return Err(ValidationError::FormErr);
+        }
         if provided.len() < self.min_mac_len {
             return Err(ValidationError::BadTrunc);
         }
-        let expected = if provided.len() < expected.as_ref().len() {
-            &expected.as_ref()[..provided.len()]
-        } else {
-            expected.as_ref()
-        };
+        let expected = &expected.as_ref()[..provided.len()];
         if !constant_time_eq(expected, provided) {
             return Err(ValidationError::BadSig);
         }
@@ -1191,6 +1197,9 @@ impl<K: AsRef<Key>> SigningContext<K> {
         );
         if let Err(err) = res {
             return Err(ServerError::unsigned(match err {
+                // RFC 8945, section 5.2.2: a MAC that fails to verify
+                // is answered with NOTAUTH and TSIG error BADSIG.
+                ValidationError::BadSig => TsigRcode::BADSIG,
                 ValidationError::BadTrunc => TsigRcode::BADTRUNC,
                 ValidationError::BadKey => TsigRcode::BADKEY,
                 _ => TsigRcode::FORMERR,
